@@ -100,6 +100,25 @@ def first_node_of_reverse_axis(m, spec):
     return bool(hit)
 
 
+DUP_FREE_AXES = {"child", "attribute", "self"}
+
+
+@matcher
+def count_of_duplicating_path(m, spec):
+    """count(P) counts the nodes P DELIVERS; a path whose later steps leave the child/attribute/self axes may
+    deliver one node several times (once per input node that reaches it)."""
+    hit = []
+
+    def visit(x):
+        if x.get("t") == "call" and x.get("f") == "count":
+            for a in x.get("args", []):
+                if isinstance(a, dict) and a.get("t") == "path" and len(a.get("steps", [])) >= 2 and \
+                        any(st["ax"] not in DUP_FREE_AXES for st in a["steps"][1:]):
+                    hit.append(1)
+    walk_ast(m["case"]["e"], visit)
+    return bool(hit)
+
+
 @matcher
 def round_returns_int(m, spec):
     """Evaluate of an expression whose top-level operation is round() hands out a Go int."""
@@ -209,6 +228,9 @@ def run_C02(run):
     # (5c) a predicate-carrying step continued by a further step on every axis (and through '//')
     run.gen_and_replay("MC_Expr", consts(BASE_EXPR, Family="C02cont", MaxNodes=1 if q else 4, UseCat=True, CatIds={3, 5} if q else ALL_CAT),
                        name="preds-then-steps", kind="sel-set")
+    # (5c') count() of two-step paths that reach a node from several inputs (exercises the recorded finding KF-C02-2 in every run)
+    run.gen_and_replay("MC_Expr", consts(BASE_EXPR, Family="C02count", MaxNodes=1 if q else 4, UseCat=True, CatIds={1, 3, 7} if q else ALL_CAT),
+                       name="preds-count-two-step", kind="sel-set")
     # (5d) XQueryVM2: the implementation-shaped model of the predicate pipeline (filter / merge rewrite / group, Evaluate
     #      resets, cursor save/restore).  TLC checks it delivers the denotation (VM2Refines); the engine's delivery sequence
     #      and navigator movements are compared with the model's (a difference is MODEL DRIFT: reported, never a verdict)
